@@ -44,7 +44,7 @@ func (e *errFS) OpenFile(name string, flag int, perm os.FileMode) (fs.File, erro
 	return &errFile{File: f, e: e, seg: seg}, nil
 }
 func (e *errFS) Stat(name string) (os.FileInfo, error) { return e.inner.Stat(name) }
-func (e *errFS) Remove(name string) error               { return e.inner.Remove(name) }
+func (e *errFS) Remove(name string) error              { return e.inner.Remove(name) }
 func (e *errFS) Rename(o, n string) error {
 	e.renames++
 	return e.inner.Rename(o, n)
@@ -214,3 +214,51 @@ func hC13open(nsess int) {
 }
 
 func H_C13_open() { hC13open(3) }
+
+// H_C13_closeerr: a session whose Close fails part-way (one write of Close fails
+// with an I/O error - segment side file, index or database metadata; symbolic
+// choice which) has not completed Close. The process then dies. The next Open
+// must treat the directory as unclean (recovery runs) and present every
+// acknowledged write; if Close returned nil the next Open runs no recovery.
+func H_C13_closeerr() {
+	n := 2
+	vlen := 2
+	rec := 10 + 8 + vlen
+	efs := &errFS{inner: fs.Mem, failWrite: true}
+	dir := "c13e"
+	db, err := Open(dir, smallOpts(efs, 2, rec))
+	vAssert(err == nil, "C13e.open")
+	if err != nil {
+		return
+	}
+	r := newRef(n, 8)
+	// first session ends cleanly with one key: index.pmt on disk is stale for the second session
+	applyOp(db, r, 0, 0, vlen, "C13e.s1")
+	vAssert(db.Close() == nil, "C13e.s1.close")
+	db, err = Open(dir, smallOpts(efs, 2, rec))
+	vAssert(err == nil, "C13e.s2.open")
+	if err != nil {
+		return
+	}
+	for _, k := range []int{1, 0, 1} {
+		applyOp(db, r, 0, k, vlen, "C13e.s2")
+	}
+	efs.armed = true
+	cerr := db.Close()
+	efs.armed = false
+	fs.VerifDropHandles() // the process ends here either way
+	efs2 := &errFS{inner: fs.Mem}
+	db2, err := Open(dir, smallOpts(efs2, 2, rec))
+	vAssert(err == nil, "C13e.next-open-succeeds")
+	if err != nil {
+		return
+	}
+	if cerr != nil {
+		vCover("C13e.close-failed")
+		vAssert(efs2.renames > 0, "C13e.session-whose-close-failed-is-recovered")
+	} else {
+		vAssert(efs2.renames == 0, "C13e.completed-close-is-not-recovered")
+	}
+	checkReads(db2, r, "C13e.contents")
+	vCover("C13e.done")
+}
